@@ -186,8 +186,12 @@ def r3_castle_guards(ctx):
         ('Black', 'Q'): dict(right=R['BQ'], king='e8', to='c8', safe={'d8'}, empty={'d8', 'c8', 'b8'}),
     }
     seen = set()
+    def fresh_insert(eng, st, args, info):
+        # C01 speaks about a freshly created generator: its caches are empty, an insert replaces nothing
+        return [(st, ('agg', 'adt', 'std::option::Option', 'None', ()))]
     for col in ('White', 'Black'):
-        eng = Engine(facts, opaque={GAT}, readonly={PS + '::get'})
+        eng = Engine(facts, opaque={GAT}, readonly={PS + '::get', BOARD + '::current_position_hash'},
+                     models={'std::collections::HashMap::<K, V, S, A>::insert': fresh_insert})
         outs = eng.run(name, args=[None, None, COLORS[col], None])
         ctx.touch(name)
         wocc = ('fld', ('fld', ('fld', ('der', ('p', 2)), 'white'), 'occupied'), '0')
